@@ -20,11 +20,17 @@ for _name, _cands in (("cells", ("harness.c06", "harness.cells_common")), ("lega
     for _mod in _cands:
         try:
             _m = importlib.import_module(_mod)
-        except ImportError:
+        except ModuleNotFoundError as _e:
+            # only a candidate module that does not exist in this tree may be skipped; a module that exists but cannot be
+            # imported (a missing dependency, a syntax error) must not silently drop a whole part of the property
+            if _e.name != _mod:
+                raise
             continue
         if hasattr(_m, "generate_rejecting"):
             PART_MODULES[_name] = _mod
             break
+    else:
+        raise ImportError(f"C18: no module of {_cands} offers generate_rejecting (part '{_name}' would be dropped)")
 
 
 # the kinds of rejection the property lists (a rejection of another kind — e.g. moving an agent that is not in the space,
